@@ -179,7 +179,7 @@ void vf_same_scalars_except(const char *label, void *a, void *b, const char *typ
 	{
 		int diff;
 		if (has_prefix(lay_names[i], skip)) continue;
-		if (k[i] == 'p') diff = ((*(void **) ((char *) a + o[i])) == 0) != ((*(void **) ((char *) b + o[i])) == 0);
+		if (k[i] == 'p' || k[i] == 'f') diff = ((*(void **) ((char *) a + o[i])) == 0) != ((*(void **) ((char *) b + o[i])) == 0);
 		else diff = memcmp((char *) a + o[i], (char *) b + o[i], (size_t) s[i]) != 0;
 		if (diff) { bad++; if (bad <= 20) printf("EVENT %s.differs_at_offset %ld %ld\n", label, o[i], s[i]); }
 	}
